@@ -5,6 +5,13 @@
 
 namespace igris
 {
+    // strchr() also finds the terminator of the delimiter list: a zero byte in
+    // the text is data, not a delimiter
+    static inline bool is_delim(const char *delims, char c)
+    {
+        return c != '\0' && strchr(delims, c) != NULL;
+    }
+
     std::vector<std::string> split(const igris::buffer &str, char delim)
     {
         std::vector<std::string> outvec;
@@ -15,7 +22,7 @@ namespace igris
 
         while (true)
         {
-            while (*ptr == delim)
+            while (ptr != end && *ptr == delim)
                 ptr++;
 
             if (ptr == end)
@@ -46,7 +53,7 @@ namespace igris
         while (true)
         {
             // Skip delimiters
-            while (strchr(delims, *ptr) != NULL && ptr != end)
+            while (ptr != end && is_delim(delims, *ptr))
                 ptr++;
 
             if (ptr == end)
@@ -54,7 +61,7 @@ namespace igris
 
             strt = ptr;
 
-            while (ptr != end && strchr(delims, *ptr) == NULL)
+            while (ptr != end && !is_delim(delims, *ptr))
                 ptr++;
 
             outvec.emplace_back(strt, ptr - strt);
@@ -150,7 +157,7 @@ std::vector<std::string> igris::split_cmdargs(const igris::buffer &str)
     while (true)
     {
         // Skip delimiters
-        while (*ptr == ' ' && ptr != end)
+        while (ptr != end && *ptr == ' ')
             ptr++;
 
         if (ptr == end)
